@@ -1676,8 +1676,10 @@ impl ArchiveBuilder {
             return;
         }
 
-        // Process full u32 chunks
-        let (chunks, remainder) = data.split_at_mut((data.len() / 4) * 4);
+        // Process full u32 chunks. The MPQ cipher operates on whole dwords only: the trailing
+        // `len % 4` bytes of a unit are stored as they are (StormLib's EncryptMpqBlock rounds
+        // the length down to dwords).
+        let (chunks, _plain_tail) = data.split_at_mut((data.len() / 4) * 4);
 
         // Convert chunks to u32 values, encrypt, and write back
         let mut u32_buffer = Vec::with_capacity(chunks.len() / 4);
@@ -1691,21 +1693,6 @@ impl ArchiveBuilder {
         for (i, &encrypted) in u32_buffer.iter().enumerate() {
             let bytes = encrypted.to_le_bytes();
             chunks[i * 4..(i + 1) * 4].copy_from_slice(&bytes);
-        }
-
-        // Handle remaining bytes
-        if !remainder.is_empty() {
-            let mut last_dword = [0u8; 4];
-            last_dword[..remainder.len()].copy_from_slice(remainder);
-
-            let mut last_u32 = u32::from_le_bytes(last_dword);
-            encrypt_block(
-                std::slice::from_mut(&mut last_u32),
-                key.wrapping_add((chunks.len() / 4) as u32),
-            );
-
-            let encrypted_bytes = last_u32.to_le_bytes();
-            remainder.copy_from_slice(&encrypted_bytes[..remainder.len()]);
         }
     }
     /// Encrypt u32 data in place
